@@ -25,28 +25,35 @@ import (
 
 // opMenu is the operation alphabet of a configuration.
 func opMenu(cfg config) []string {
+	// priorities are unique per CID (A=1 or 5, B=2, C=3, E=4): the engine orders wants of equal
+	// priority by Go map iteration, which would make executions irreproducible
 	p1 := []string{
-		"bA1",         // want-block, present small
-		"hB2!",        // want-have, present large, send_dont_have
-		"hA1",         // want-have small (answered by the block when replace size >= 4)
-		"bC3!",        // absent, wants DONT_HAVE
-		"bC1",         // absent, silent
-		"bE3",         // present, high priority
-		"bB2",         // present, middle priority
-		"bD2!",        // denied by the filter, wants DONT_HAVE
-		"xA",          // cancel
-		"xC",          // cancel of an absent want
-		"F:bB1",       // full want-list: replaces everything
-		"F:",          // full and empty: the peer wants nothing any more
-		"bA1,bB2,bC3!", // three wants in one message (overflow / cut at the limit for L < 3)
-		"bE3,xA",      // want and cancel mixed
-		"hA1,bA2",     // duplicate CID on the wire: merged to one want-block
-		"bI1,bO1,bE1", // identity and oversize CIDs are ignored, E is served
+		"bA1",          // want-block, present small
+		"hB2!",         // want-have, present large, send_dont_have
+		"hA1",          // want-have small (answered by the block when replace size >= 4)
+		"bC3!",         // absent, wants DONT_HAVE
+		"bC3",          // absent, silent
+		"bE4",          // present, high priority
+		"bB2",          // present, middle priority
+		"hD5!",         // denied by the filter (want-have), wants DONT_HAVE
+		"xA",           // cancel
+		"xB",           // cancel
+		"xC",           // cancel of an absent want
+		"F:bB2",        // full want-list: replaces everything
+		"F:",           // full and empty: the peer wants nothing any more
+		"bA1,bB2,bC3!", // three wants in one message, ascending priority (overflow / cut at the limit for L < 3)
+		"bE4,bB2",      // two wants, descending priority
+		"bE4,xA",       // want and cancel mixed
+		"hA1,bA1",      // duplicate CID on the wire: merged to one want-block
+		"bI1,bO1,bE4",  // identity and oversize CIDs are ignored, E is served
 	}
-	p2 := []string{"bA1", "bC2!", "hD1", "xA"}
+	p2 := []string{"bA1", "bC3!", "hD2", "xA"}
 	if cfg.Zero {
-		p1 = []string{"bZ2!", "hZ1", "bA1", "xZ", "bB3"}
-		p2 = []string{"bZ1"}
+		p1 = []string{"bZ2!", "hZ2", "bA1", "xZ", "bB3"}
+		p2 = []string{"bZ2"}
+	}
+	if cfg.Wide {
+		p1 = append(p1, "bD5!", "bA5", "bE4,bA1", "F:bE4,bC3!")
 	}
 	var ops []string
 	for _, m := range p1 {
@@ -61,6 +68,7 @@ func opMenu(cfg config) []string {
 
 type seqItem struct {
 	Cfg  string   `json:"cfg"`
+	Key  [16]byte `json:"key"` // state key of Path as first computed
 	Path []string `json:"path"`
 	Ops  []string `json:"ops"` // extensions to try
 }
@@ -68,6 +76,7 @@ type seqItem struct {
 type seqChild struct {
 	Op      string         `json:"op"`
 	Key     [16]byte       `json:"key"`
+	PreKey  [16]byte       `json:"prekey"` // state key before the last operation (must equal the parent's key)
 	Enabled []string       `json:"enabled"`
 	Viols   []*eng.Violation `json:"viols,omitempty"`
 	Fatal   bool           `json:"fatal,omitempty"`
@@ -110,6 +119,7 @@ func execChild(cfg config, path []string, op string) seqChild {
 		ch.Outcome += "viol:" + v.Symptom + ";"
 	}
 	ch.Key = h16(x.key)
+	ch.PreKey = h16(x.preKey)
 	ch.Outcome += x.outcomeString()
 	return ch
 }
@@ -238,6 +248,7 @@ func (sp *seqPool) run(items []seqItem, handle func(it seqItem, rep seqReply), s
 type seqNode struct {
 	path    []string
 	enabled []string
+	key     [16]byte
 }
 
 func lessPath(a, b []string) bool {
@@ -253,7 +264,22 @@ func lessPath(a, b []string) bool {
 }
 
 // exploreSeq runs the BFS, level by level over all configurations at once.
-func exploreSeq(r *eng.Run, cfgs []config, depth int) {
+type seqPlan struct {
+	cfg   config
+	depth int
+}
+
+func exploreSeq(r *eng.Run, plans []seqPlan) {
+	depth := 0
+	var cfgs []config
+	depthOf := map[string]int{}
+	for _, p := range plans {
+		cfgs = append(cfgs, p.cfg)
+		depthOf[p.cfg.String()] = p.depth
+		if p.depth > depth {
+			depth = p.depth
+		}
+	}
 	pool := newSeqPool(runtime.NumCPU())
 	defer pool.close()
 	type cstate struct {
@@ -265,6 +291,7 @@ func exploreSeq(r *eng.Run, cfgs []config, depth int) {
 		done     int
 	}
 	cov := map[string]int{}
+	nondet := 0
 	var cs []*cstate
 	for _, cfg := range cfgs {
 		c := &cstate{cfg: cfg, seen: map[[16]byte]struct{}{}}
@@ -276,7 +303,7 @@ func exploreSeq(r *eng.Run, cfgs []config, depth int) {
 		if !root.Fatal {
 			c.seen[root.Key] = struct{}{}
 			c.states = 1
-			c.frontier = []seqNode{{nil, root.Enabled}}
+			c.frontier = []seqNode{{nil, root.Enabled, root.Key}}
 		}
 		cs = append(cs, c)
 	}
@@ -292,8 +319,11 @@ func exploreSeq(r *eng.Run, cfgs []config, depth int) {
 	for d := 1; d <= depth; d++ {
 		var items []seqItem
 		for _, c := range cs {
+			if depthOf[c.cfg.String()] < d {
+				continue
+			}
 			for _, n := range c.frontier {
-				items = append(items, seqItem{Cfg: c.cfg.String(), Path: n.path, Ops: n.enabled})
+				items = append(items, seqItem{Cfg: c.cfg.String(), Key: n.key, Path: n.path, Ops: n.enabled})
 			}
 		}
 		if len(items) == 0 {
@@ -308,6 +338,9 @@ func exploreSeq(r *eng.Run, cfgs []config, depth int) {
 			c := byName[it.Cfg]
 			for _, ch := range rep.Children {
 				c.runs++
+				if ch.PreKey != it.Key {
+					nondet++
+				}
 				for k, v := range ch.Cov {
 					cov[k] += v
 				}
@@ -327,6 +360,9 @@ func exploreSeq(r *eng.Run, cfgs []config, depth int) {
 			break
 		}
 		for _, c := range cs {
+			if depthOf[c.cfg.String()] < d {
+				continue
+			}
 			ss := succs[c.cfg.String()]
 			sort.Slice(ss, func(a, b int) bool { return lessPath(ss[a].path, ss[b].path) })
 			var next []seqNode
@@ -336,12 +372,12 @@ func exploreSeq(r *eng.Run, cfgs []config, depth int) {
 				}
 				c.seen[s.key] = struct{}{}
 				c.states++
-				next = append(next, seqNode{s.path, s.enabled})
+				next = append(next, seqNode{s.path, s.enabled, s.key})
 				if len(s.path) >= 2 {
 					r.Distinct(c.cfg.String() + "\x00" + strings.Join(s.path, "\x00"))
 				}
 			}
-			if len(next) > 0 && d == depth {
+			if len(next) > 0 && d == depthOf[c.cfg.String()] {
 				r.Sample(map[string]any{"config": c.cfg.String(), "ops": next[len(next)/2].path})
 			}
 			c.frontier = next
@@ -351,7 +387,7 @@ func exploreSeq(r *eng.Run, cfgs []config, depth int) {
 	totalStates, totalRuns := 0, 0
 	perCfg := map[string]any{}
 	for _, c := range cs {
-		perCfg[c.cfg.String()] = map[string]any{"states": c.states, "scripts_executed": c.runs, "depth_completed": c.done, "frontier_at_depth_bound": len(c.frontier)}
+		perCfg[c.cfg.String()] = map[string]any{"states": c.states, "scripts_executed": c.runs, "depth_bound": depthOf[c.cfg.String()], "depth_completed": c.done, "frontier_at_depth_bound": len(c.frontier)}
 		totalStates += c.states
 		totalRuns += c.runs
 	}
@@ -359,9 +395,13 @@ func exploreSeq(r *eng.Run, cfgs []config, depth int) {
 	r.States(totalStates)
 	r.Transitions(totalRuns)
 	r.Traces(totalRuns)
-	r.Set("seq_depth_bound", depth)
+	r.Set("seq_depth_bound_max", depth)
 	r.Set("seq_configs", perCfg)
 	r.Set("seq_coverage", cov)
+	r.Set("seq_replays_reaching_a_different_state", nondet)
+	if nondet > 0 {
+		r.Incomplete(fmt.Sprintf("%d script replays did not reproduce their prefix state (non-determinism in the code under test)", nondet))
+	}
 }
 
 // replaySeq re-executes one recorded script with the step log printed.
